@@ -23,6 +23,8 @@
 #include "parsec/execution_stream.h"
 #include "parsec/data_internal.h"
 #include "parsec/arena.h"
+#include "parsec/mempool.h"
+#include "parsec/class/lifo.h"
 #include "parsec/interfaces/dtd/insert_function.h"
 #include "parsec/interfaces/dtd/insert_function_internal.h"
 #include "vdc.h"
@@ -112,6 +114,8 @@ static int dd_prog_canonical(const dd_prog_t *p)
     for (int t = 0; t < p->nt; t++) for (int k = 0; k < p->t[t].np; k++) { int a = p->t[t].tile[k]; if (a > next) return 0; if (a == next) next++; }
     return 1;
 }
+static int dd_task_has_dup(const dd_task_t *T) { for (int k = 0; k < T->np; k++) for (int j = k + 1; j < T->np; j++) if (T->tile[j] == T->tile[k]) return 1; return 0; }
+static int dd_prog_has_dup(const dd_prog_t *p) { for (int t = 0; t < p->nt; t++) if (dd_task_has_dup(&p->t[t])) return 1; return 0; }
 static int dd_prog_tiles_used(const dd_prog_t *p)
 {
     int m = 0; for (int t = 0; t < p->nt; t++) for (int k = 0; k < p->t[t].np; k++) if (p->t[t].tile[k] + 1 > m) m = p->t[t].tile[k] + 1; return m;
@@ -305,9 +309,39 @@ static parsec_task_class_t *dd_class_of(parsec_taskpool_t *tp, const dd_task_t *
     return tc;
 }
 
+/* --norecycle: keep completed task objects out of circulation while the taskpool lives. Before an insertion the
+ * free list (of the inserting thread) of the task class about to be used is emptied into a side list that is given
+ * back at the end of the run. Work-around for the stale tile->last_user.task pointer comparison (finding
+ * C03-stale-last-user-aba): with it no new task can have the address of a completed one. */
+static int dd_norecycle = 0;
+typedef struct { parsec_thread_mempool_t *tm; parsec_list_item_t *elt; } dd_parked_t;
+static dd_parked_t dd_parked[512]; static volatile int dd_nparked = 0; static volatile int dd_park_lock = 0;
+static void dd_drain_class(parsec_task_class_t *tc)
+{
+    parsec_dtd_task_class_t *d = (parsec_dtd_task_class_t *)tc;
+    if (!tc || !d->local_task_mempool.thread_mempools) return;
+    parsec_execution_stream_t *es = parsec_my_execution_stream();
+    parsec_thread_mempool_t *tm = d->local_task_mempool.thread_mempools + es->th_id;
+    parsec_list_item_t *it;
+    while ((it = parsec_lifo_pop(&tm->mempool)) != NULL) {
+        while (__atomic_exchange_n(&dd_park_lock, 1, __ATOMIC_ACQUIRE)) ;
+        if (dd_nparked >= 512) { fprintf(stderr, "dd: parked list full\n"); abort(); }
+        dd_parked[dd_nparked].tm = tm; dd_parked[dd_nparked].elt = it; dd_nparked++;
+        __atomic_store_n(&dd_park_lock, 0, __ATOMIC_RELEASE);
+    }
+}
+static void dd_unpark_all(void)
+{
+    for (int i = 0; i < dd_nparked; i++) parsec_lifo_push(&dd_parked[i].tm->mempool, dd_parked[i].elt);
+    dd_nparked = 0;
+}
 static void dd_insert_one(parsec_taskpool_t *tp, int t)
 {
     const dd_task_t *T = &dd_cur_prog->t[t];
+    if (dd_norecycle) {
+        if (dd_cur_cfg->api == 0) dd_drain_class((parsec_task_class_t *)parsec_dtd_find_task_class((parsec_dtd_taskpool_t *)tp, (uint64_t)(uintptr_t)dd_body_tab[dd_shape(T)] + (uint64_t)T->np));
+        else dd_drain_class(dd_class_of(tp, T));
+    }
     int tid = t, rk = T->rank, xv = dd_xval_of(t);
     parsec_dtd_tile_t *tl[DD_MAXP]; int m[DD_MAXP];
     for (int k = 0; k < DD_MAXP; k++) { tl[k] = NULL; m[k] = 0; }
@@ -343,7 +377,12 @@ static void dd_env_init(dd_env_t *e, parsec_context_t *ctx, int ntiles)
 {
     e->ctx = ctx; e->ntiles = ntiles; e->dc = NULL;
     dd_myrank = ctx->my_rank; dd_nranks = ctx->nb_nodes;
-    parsec_context_start(ctx);
+    /* the DTD MCA parameters (hash table sizes...) are read by the first parsec_dtd_taskpool_new(): do that before
+     * any parsec_dtd_data_collection_init() so that dtd_tile_hash_size is honoured */
+    parsec_taskpool_t *dummy = parsec_dtd_taskpool_new(); parsec_taskpool_free(dummy);
+    /* the context is started by the first dd_run AFTER its taskpool was added: parsec_context_start() wakes the workers
+     * before it takes its own reference on active_taskpools, so a worker woken with no taskpool enqueued can see
+     * "all tasks done", leave for the final barrier and stay away for the whole epoch */
 }
 /* (re)create the data collection for a given owner map (only needed when owners change) */
 static void dd_env_set_owners(dd_env_t *e, const int8_t *owner)
@@ -375,6 +414,7 @@ static void dd_run(dd_env_t *e, const dd_prog_t *p, const dd_cfg_t *cfg, dd_res_
     parsec_taskpool_t *tp = parsec_dtd_taskpool_new();
     dd_nclasses_made = 0; memset(dd_class_tab, 0, sizeof(dd_class_tab));
     if (parsec_context_add_taskpool(e->ctx, tp) != 0) { fprintf(stderr, "dd_run: add_taskpool failed\n"); abort(); }
+    parsec_context_start(e->ctx);       /* no-op (returns 1) when already active */
     int upto = (cfg->gen_at >= 0 && cfg->gen_at <= p->nt) ? cfg->gen_at : p->nt;
     for (int t = 0; t < upto; t++) {
         if (dd_hook_before_insert) dd_hook_before_insert(tp, t);
@@ -395,6 +435,7 @@ static void dd_run(dd_env_t *e, const dd_prog_t *p, const dd_cfg_t *cfg, dd_res_
     }
     parsec_dtd_data_flush_all(tp, dd_cur_dc);
     parsec_taskpool_wait(tp);
+    dd_unpark_all();
     for (int i = 0; i < dd_nclasses_made; i++) parsec_dtd_task_class_release(tp, dd_classes[i]);
     parsec_taskpool_free(tp);
     for (int i = 0; i < e->ntiles; i++) if ((int)e->dc->owner[i] == dd_myrank) res->final[i] = *(int64_t *)vdc_elem(e->dc, i);
